@@ -187,6 +187,14 @@ class Check:
         self.seed = seed()
         self.t0 = time.time()
         self.work = WORK / f"{pid}-{tier}-{os.getpid()}"
+        for stale in WORK.glob(f"{pid}-*-*"):          # work directories of runs that were killed
+            try:
+                owner = int(stale.name.rsplit("-", 1)[1])
+                os.kill(owner, 0)
+            except (ValueError, ProcessLookupError):
+                shutil.rmtree(stale, ignore_errors=True)
+            except PermissionError:
+                pass
         if self.work.exists():
             shutil.rmtree(self.work)
         self.work.mkdir(parents=True)
@@ -354,7 +362,8 @@ class Check:
         print(f"[{self.pid} {self.tier}] states={self.states} transitions={self.transitions} traces={self.traces} "
               f"evaluations={self.evaluations} distinct={len(self.nontrivial)} violations={len(self.violations)} "
               f"known={len(self.known_hits)} wall={wall:.1f}s")
-        shutil.rmtree(self.work, ignore_errors=True)
+        if not os.environ.get("VP_KEEP_WORK"):
+            shutil.rmtree(self.work, ignore_errors=True)
         return 1 if self.violations else 0
 
 
